@@ -94,7 +94,7 @@ PROPS = {
         "require_strata": {"both": ["grid:meta", "grid:colmeta", "grid:zero-rows", "grid:missing-cell", "grid:null-cell", "num:nan",
                                     "num:inf", "num:neg0", "num:subnormal", "num:unit", "num:int>=2^63", "str:astral", "str:control",
                                     "dt:zone", "ref:dis", "typed-impl", "entry:to_string x from_str".replace(" x ", "x"),
-                                    "entry:to_valuexfrom_value", "entry:to_vecxfrom_slice"]},
+                                    "entry:to_valuexfrom_value", "entry:to_vecxfrom_slice", "entry:to_writerxfrom_reader", "entry:to_stringxfrom_reader"]},
         "min_evals": {"quick": 50_000, "thorough": 1_000_000},
     },
     "C10": {
@@ -178,7 +178,7 @@ PROPS = {
                  "mutants; grammar-generated Zinc documents (reference writer, random spellings) with every prefix (thorough; 48 sampled "
                  "in quick) and 24 stacked-mutation mutants each (bit flip, byte replace/insert/delete/swap, range duplicate/delete, token "
                  "splice, truncate, comma insert/delete, terminator delete); every \\uXXXX escape (all 65,536 code units) in Str, Uri, Ref "
-                 "dis, XStr, a grid cell and Hayson; Hayson documents (library's and reference writer's spelling) with prefixes and mutants; random bytes, "
+                 "dis, XStr, a grid cell and Hayson; texts the decoders quote in error messages (unknown unit / zone / kind / escape / tag ...) at every byte length up to 140 (quick) / 700 of 1-, 2-, 3- and 4-byte characters; long runs of one byte (to 1e6) and flat documents of up to 1e6 siblings; Hayson documents (library's and reference writer's spelling) with prefixes and mutants; random bytes, "
                  "printable noise and token soup. Each text goes through zinc::from_str, Parser::make(reader).parse_value and the lazy "
                  "parse_grid_iterator (drained) over a hostile reader (chunks of 1/2/7/random/whole, Interrupted on every other call, "
                  "sticky I/O error at a random offset), or serde_json::from_str/from_slice::<Value>. oracle = returned Ok or Err; a panic "
@@ -195,7 +195,7 @@ PROPS = {
         "require_strata": {"both": ["outcome:from_str:ok", "outcome:from_str:err", "outcome:reader:ok", "outcome:reader:err", "outcome:lazy:ok",
                                     "outcome:lazy:err", "outcome:json_slice:ok", "outcome:json_slice:err", "ladder-list:depth100000",
                                     "ladder-grid:depth100000", "ladder-json-list:depth100000", "prefix", "mutant", "corpus-mutant",
-                                    "mutation:token-splice", "mutation:comma-insert", "mutation:terminator-delete", "bytes", "unicode-escape"]},
+                                    "mutation:token-splice", "mutation:comma-insert", "mutation:terminator-delete", "bytes", "unicode-escape", "error-text"]},
         "min_evals": {"quick": 300_000, "thorough": 10_000_000},
     },
     "C07": {
@@ -241,14 +241,14 @@ PROPS = {
         "rule": ("cases = filter texts: parenthesis ladders '(', '(a and ', '(not a or ', and with closed sibling groups '((a) and ', "
                  "'((a or (b)) and (c) and ' at depths 1..1e5 closed and unclosed; valid filters "
                  "(reference printer) with every prefix (thorough; 24 sampled in quick) and 24 stacked-mutation mutants each; operators "
-                 "without operands, token soup (incl. form feed, VT, NUL), raw bytes; relationship and '*==' terms. Filter::try_from runs under the panic/abort/fuel monitor "
+                 "without operands, token soup (incl. form feed, VT, NUL), raw bytes; long runs of one byte (to 1e5/1e6) between tokens; flat and/or chains; texts quoted in error messages at every byte length of 1-4-byte characters; relationship and '*==' terms. Filter::try_from runs under the panic/abort/fuel monitor "
                  "(16*len+512 decoder steps, confirmed at 1000x). Every filter that parses is evaluated on a record of a 5-record world "
                  "whose ref tags form cycles and self-loops and where a ref may resolve to an EMPTY record, through Dict::filter and through EvalContext over the real defs namespace "
                  "(tests/defs/defs.zinc) with a resolver that aborts the evaluation if asked more than 40 times (4*(records+1)+16)"),
         "assumptions": ["termination restated as bounded steps: lexer fuel for parsing, resolver-call cap for evaluation; a loop that touches "
                         "neither is only seen by the wall-clock watchdog (inconclusive)",
                         "ladders, long runs and flat chains are parsed on a thread with std::thread's default 2 MiB stack, in the monitoring and the dev profile"],
-        "require_strata": {"both": ["outcome:ok", "outcome:err", "eval:returned", "ladder-paren:depth100000", "prefix", "mutant", "soup", "relation"]},
+        "require_strata": {"both": ["outcome:ok", "outcome:err", "eval:returned", "ladder-paren:depth100000", "prefix", "mutant", "soup", "relation", "error-text", "ladder-runs:len100000"]},
         "min_evals": {"quick": 300_000, "thorough": 10_000_000},
     },
     "C15": {
@@ -406,7 +406,7 @@ PROPS = {
                  "handles, every extern fn: make/is/get for every kind, push/get/set/remove/len on lists, insert/get/remove/keys/len on "
                  "dicts, grid from rows (with meta)/len/row_at, to/from Zinc and JSON, filter parse/match_dict/first_match/match_all, "
                  "utc/tz datetime constructors and getters, destroy, result holders that are fresh or already own data, borrowed entry "
-                 "pointers passed back as entries, a failure left unread followed by another failure, filters written from the live data so that grid matches select rows (match_all compared as a whole grid: columns and meta too), failing calls that quote 1..1100-byte texts of 1/2/3/4-byte characters (error-text sweep); arguments valid / wrong kind / out of range / null / non-UTF-8 / "
+                 "pointers passed back as entries, a failure left unread followed by another failure, filters written from the live data so that grid matches select rows (match_all compared as a whole grid: columns and meta too), failing calls that quote 1..1100-byte texts of 1/2/3/4-byte characters (error-text sweep), values whose text carries NUL (decoded from \\u0000 escapes), and 2-4 threads each driving its own handle pool concurrently (the error slot and every result are per thread); arguments valid / wrong kind / out of range / null / non-UTF-8 / "
                  "invalid text. Every handle is mirrored by a harness-side Value on which the corresponding Rust operation is applied. "
                  "After each call: the return value equals the model's; on failure the documented sentinel (None/null, usize::MAX, "
                  "u32::MAX, NaN, ERR) AND a non-null last_error_message() that is cleared by reading it; on success no stale error; all "
@@ -415,12 +415,13 @@ PROPS = {
                         "set_list_entry_at: the documentation says both 'set' and 'insert at'; only get(i)==entry and 'other elements keep "
                         "their order' are asserted, not the length",
                         "a container is never passed as its own entry (aliasing &mut/& is outside the protocol)"],
-        "require_strata": {"both": ["sequence", "capi:filter-grid:some-row-matches", "error-text-completed"]},
+        "require_strata": {"both": ["sequence", "capi:filter-grid:some-row-matches", "error-text-completed", "threads"]},
         "min_evals": {"quick": 100_000, "thorough": 3_000_000},
     },
     "C18": {
         "quick": [phase(16, 1.0, 90), phase(8, 0.5, 120, flavour="asan")],
-        "thorough": [phase(16, 1.0, 900), phase(16, 1.0, 1500, flavour="asan"), phase(16, 1.0, 2400, flavour="miri")],
+        "thorough": [phase(16, 1.0, 900), phase(16, 1.0, 1500, flavour="asan"), phase(4, 1.0, 1200, flavour="tsan", streams=["threads"]),
+                     phase(16, 1.0, 2400, flavour="miri")],
         "crash_is_violation": True,
         "rule": ("the C17 driver, which obeys the ownership protocol (every handle, filter and returned string destroyed exactly once by its "
                  "destroy function; borrowed entry pointers read immediately and dropped before the container is touched again), run (a) "
@@ -431,7 +432,7 @@ PROPS = {
                  "evaluations = calls; distinct = distinct histories + sweep sites"),
         "assumptions": ["the model's bookkeeping holds only pointers it owns and frees them at teardown, so a leak inside the library is unreachable at exit and reported by LSan",
                         "ASan's red-zone blind spots (non-adjacent overflow, reuse of the same size class) are covered only by the small Miri subset"],
-        "require_strata": {"both": ["sequence", "null-sweep", "null-sweep-completed", "error-text-completed"]},
+        "require_strata": {"both": ["sequence", "null-sweep", "null-sweep-completed", "error-text-completed", "threads"]},
         "min_evals": {"quick": 100_000, "thorough": 3_000_000},
     },
 }
